@@ -165,3 +165,37 @@ func funcsByRole(c *core.Ctx, rel string, role func(g *flow.Func, fd *ast.FuncDe
 	}
 	return out
 }
+
+// inlineIf is inlineSamePkg restricted to callees for which want reports true (e.g. "the helper's reach contains a
+// construct the rule cares about"): keeps large call trees (handleConn → readLoop) out of the state budget.
+func inlineIf(f *flow.Func, want func(callee *types.Func, g *flow.Func) bool) func(*ast.CallExpr, *types.Func) *flow.Func {
+	all := inlineSamePkg(f)
+	memo := map[*types.Func]bool{}
+	return func(call *ast.CallExpr, callee *types.Func) *flow.Func {
+		g := all(call, callee)
+		if g == nil {
+			return nil
+		}
+		ok, seen := memo[callee]
+		if !seen {
+			ok = want(callee, g)
+			memo[callee] = ok
+		}
+		if !ok {
+			return nil
+		}
+		return g
+	}
+}
+
+// reachContains reports whether node-predicate holds somewhere in reach(g, depth).
+func reachContains(g *flow.Func, depth int, pred func(h *flow.Func, n ast.Node) bool) bool {
+	found := false
+	inspectReach(g, depth, func(h *flow.Func, n ast.Node) bool {
+		if !found && pred(h, n) {
+			found = true
+		}
+		return !found
+	})
+	return found
+}
